@@ -32,10 +32,10 @@ Proof.
   - apply IH; [intros h Hh; apply H; now right|exact E].
 Qed.
 Theorem omission_none_and_empty_multi : forall f,
-  is_unset f VNone = true /\ (f_ty f = TMulti -> is_unset f (VList []) = true).
+  is_unset f VNone = true /\ (optional_type (f_ty f) = TMulti -> is_unset f (VList []) = true).
 Proof. intros f. split; [reflexivity|]. intros E. unfold is_unset. now rewrite E. Qed.
 Theorem flag_rule : forall f vals argstr b,
-  f_ty f = TBool -> f_argstr f = Some argstr -> has_char lbrace argstr = false ->
+  optional_type (f_ty f) = TBool -> f_argstr f = Some argstr -> has_char lbrace argstr = false ->
   lookup vals (f_name f) = VBool b ->
   command_pos_args f vals = Good (Some (f_pos f, if b then [argstr] else [])).
 Proof. intros f vals argstr b Ht Ha Hb Hl. unfold command_pos_args. rewrite Ha, Ht, Hb, Hl. destruct b; reflexivity. Qed.
@@ -60,7 +60,7 @@ Proof.
       by (unfold dots_text_ok, render_words, render_word; cbn [map List.concat join_sep render_piece]; rewrite app_nil_r, He; reflexivity).
     assert (A : atom_ok [[Lit flag]] (AStr v) = true)
       by (unfold atom_ok, atom_benign; cbn [truthy_atom render_atom]; rewrite Hv; destruct v; [congruence|reflexivity]).
-    unfold field_ok. cbn [f sf_name sf_argstr sf_ty sf_sep]. rewrite Hn, Hl. cbn [forallb]. rewrite W, D, A. reflexivity. }
+    unfold field_ok. cbn [f sf_name sf_argstr sf_ty sf_sep optional_type]. rewrite Hn, Hl. cbn [forallb]. rewrite W, D, A. reflexivity. }
   rewrite (contrib_ok f vals vals [[Lit flag]] false eq_refl Hok eq_refl) by (cbn [f sf_name]; rewrite Hl; discriminate).
   unfold spec_contrib. cbn [f sf_argstr sf_name]. rewrite Hl. unfold occurrence. cbn. now rewrite app_nil_r.
 Qed.
@@ -85,7 +85,7 @@ Proof.
       by (unfold atom_ok, atom_benign; cbn [truthy_atom render_atom]; rewrite Hv; destruct v; [congruence|reflexivity]).
     assert (I : inert [[Lit pre; Self; Lit post]] vals v = true)
       by (unfold inert, occ_text, inst_word; cbn [has_ph existsb is_ph orb negb map List.concat join_sep inst_piece]; now rewrite app_nil_r, Hbr).
-    unfold field_ok. cbn [f sf_name sf_argstr sf_ty sf_sep]. rewrite Hn, Hl. cbn [forallb render_atom]. rewrite W, D, A, I. reflexivity. }
+    unfold field_ok. cbn [f sf_name sf_argstr sf_ty sf_sep optional_type]. rewrite Hn, Hl. cbn [forallb render_atom]. rewrite W, D, A, I. reflexivity. }
   rewrite (contrib_ok f vals vals [[Lit pre; Self; Lit post]] false eq_refl Hok eq_refl) by (cbn [f sf_name]; rewrite Hl; discriminate).
   unfold spec_contrib. cbn [f sf_argstr sf_name]. rewrite Hl. unfold occurrence, inst_word.
   cbn [has_ph existsb is_ph orb map List.concat inst_piece render_atom filter]. rewrite app_nil_r.
